@@ -245,3 +245,29 @@ func firstLines(s string, n int) string {
 	}
 	return strings.Join(ls, " | ")
 }
+
+
+// quickUnsat runs one fast solver on a script; true only for a definite `unsat`.
+func quickUnsat(script string, timeoutS int) bool {
+	f, err := os.CreateTemp(filepath.Join(verifRoot, "work"), "q*.smt2")
+	if err != nil {
+		return false
+	}
+	f.WriteString(script)
+	f.Close()
+	defer os.Remove(f.Name())
+	for _, s := range [][]string{{"z3-new", fmt.Sprintf("-T:%d", timeoutS), "-smt2", f.Name()}, {"/usr/bin/z3", fmt.Sprintf("-T:%d", timeoutS), "-smt2", f.Name()}} {
+		var out bytes.Buffer
+		cmd := exec.Command(s[0], s[1:]...)
+		cmd.Stdout = &out
+		cmd.Run()
+		first := strings.TrimSpace(strings.SplitN(out.String(), "\n", 2)[0])
+		if first == "unsat" {
+			return true
+		}
+		if first == "sat" {
+			return false
+		}
+	}
+	return false
+}
